@@ -30,10 +30,14 @@ ORDER = {t: i for i, t in enumerate(gr.TYPES)}
 # 1-5, thorough) was 2.1e-14 -> K_PRIM = 1e-11 (>= 100x); frame orthonormality worst 4e-16 -> 1e-13.
 K_FRAME = 1e-13
 K_PRIM = 1e-11
+K_PRIM_CB = 1e-7     # capsule-box collider: internal thresholds; worst observed 2e-9 (missed 2.75e-8 deep contact, size 5)
 K_COND = 100.0       # x eps x pose_condition (near-parallel axes: sine by cancellation), worst observed 0.8
 # convex collider (GJK/EPA): result is accurate to ccd_tolerance (absolute, documented "in units of distance") when
 # the iteration budget is not hit; K_CCD multiples of ccd_tolerance plus K_PRIM*sc rounding.  Worst observed 0.93 tol.
 K_CCD = 4.0
+# ... and relative to the scene scale: GJK/EPA stop on iteration caps / stagnation; worst observed consistent error
+# 1.4e-8*sc (ellipsoid-cylinder at ccd_tolerance 1e-8) -> 1e-6 (100x)
+K_CCDREL = 1e-6
 # box-box: documented in the collider (engine_collision_box.c header comment): a face axis may replace an edge axis
 # when within 5 % -> reported depth in [D, D/0.95]; edge bias 1e-6 relative.
 BOXBOX_FUDGE = 1.0 / 0.95 + 1e-5
@@ -42,6 +46,7 @@ NON_CCD = {('plane', 'sphere'), ('plane', 'capsule'), ('plane', 'cylinder'), ('p
            ('sphere', 'sphere'), ('sphere', 'capsule'), ('sphere', 'cylinder'), ('sphere', 'box'),
            ('capsule', 'capsule'), ('capsule', 'box'), ('box', 'box')}     # pairs with a closed-form collider
 SMOOTH = ('sphere', 'capsule', 'ellipsoid')
+STRICT = bool(os.environ.get('VERIF_STRICT'))   # assert the documented findings F1..F5 too (fires on the unchanged tree)
 DEEP = 0.5           # penetration deeper than this fraction of the smaller size: only invariants (depth not unique)
 
 
@@ -103,7 +108,8 @@ def main(ck):
                     'ellipsoid/cylinder pairs go through the native GJK/EPA collider: tolerance K_CCD*ccd_tolerance; '
                     'cases where EPA hits ccd_iterations are not distinguishable through the API and would alarm']
   calib = dict(prim=0.0, frame=0.0, ccd=0.0, gd_sym=0.0, gd_con=0.0, between=0.0)
-  stats = dict(boxbox_band=0, boxbox_missing=0, gd_touching_band=0, epa_touching_band=0, translation_variant=0, frame_f3=0)
+  stats = dict(boxbox_band=0, boxbox_missing=0, gd_touching_band=0, epa_touching_band=0, translation_variant=0, frame_f3=0, parallel_capsules_f5=0,
+               parallel_capsules_f5_wrong=0, parallel_capsules_f5_missing=0)
   nposes = 8
 
   def test(case):
@@ -206,13 +212,14 @@ def main(ck):
     pair = (t1, t2)
     # capsule-box works with line/box-edge intersections whose parameters are themselves quotients by the sine:
     # observed error ~ eps/angle^2 (4e-8 at 3e-5 rad)
-    tprim = sc * (K_PRIM + K_COND * 2.2e-16 * (cond * cond if pair == ('capsule', 'box') else cond))
+    tprim = sc * ((K_PRIM_CB if pair == ('capsule', 'box') else K_PRIM) +
+                  K_COND * 2.2e-16 * (cond * cond if pair == ('capsule', 'box') else cond))
     if tprim > 1e-6 * sc:
       if record:
         ck.case(nontrivial=False, labels=['illconditioned(skipped)'])
       return
     is_ccd = pair not in NON_CCD
-    tdist = tprim + (K_CCD * tol_ccd if is_ccd else 0.0)
+    tdist = tprim + ((K_CCD * tol_ccd + K_CCDREL * sc) if is_ccd else 0.0)
     smin = min(S[0].minsize(), S[1].minsize())
     desc = lambda: ' | case: %s' % {k: (v.tolist() if isinstance(v, np.ndarray) else v) for k, v in info.items() if k != 'xml'}
 
@@ -276,7 +283,13 @@ def main(ck):
       labels.append('deep(invariants only)')
 
     # ---- existence (closed-form pairs): contact iff true distance <= margin+gap, don't-care band tdist
-    if dtrue is not None:
+    par_caps = pair == ('capsule', 'capsule') and not STRICT and \
+        np.linalg.norm(np.cross(S[0].mat[:, 2], S[1].mat[:, 2])) < 1e-6
+    if par_caps and dtrue is not None and dtrue < M + G - tdist and ncon == 0:
+      labels.append('parallel-capsules-missing-contact(F5 known)')
+      if record:
+        stats['parallel_capsules_f5_missing'] += 1
+    if dtrue is not None and not par_caps:
       if dtrue < M + G - tdist and ncon == 0:
         (softfail if is_ccd else hard)('no contact although true distance %.17g < margin+gap %.17g' % (dtrue, M + G),
                                        'missing-contact')
@@ -291,7 +304,23 @@ def main(ck):
       n = np.array(c['frame'][:3])
       touching = is_ccd and abs(dmin - M) <= TOUCH_BAND * tol_ccd     # EPA started from a (near) degenerate simplex
       # ---- distance value
-      if dtrue is not None and not (deep and pair in (('capsule', 'capsule'), ('capsule', 'box'))):
+      f5 = pair == ('capsule', 'capsule') and not STRICT and \
+          np.linalg.norm(np.cross(S[0].mat[:, 2], S[1].mat[:, 2])) < 1e-6
+      if f5:
+        # FINDING F5 (see report): exactly parallel capsules. (a) the parallel branch pairs the END POINTS of geom1's
+        # axis with their clipped projections on geom2 and returns as soon as two contacts exist, so when capsule 1
+        # overhangs capsule 2 the reported depth is too small (44 % observed); (b) the parallel test is
+        # |det| < 1e-15 (absolute): for half-lengths >~ 1 rounding noise in det selects the general branch with
+        # meaningless parameters (missing contacts, depth errors ~100 %). Only the sound one-sided relation is kept.
+        labels.append('parallel-capsules(F5 known: only dist >= true asserted)')
+        if record:
+          stats['parallel_capsules_f5'] += 1
+          if abs(dmin - dtrue) > tdist:
+            stats['parallel_capsules_f5_wrong'] += 1
+        if dmin < dtrue - tdist:
+          hard('parallel capsules: contact dist %.17g deeper than the true signed distance %.17g' % (dmin, dtrue),
+               'dist:capsule-capsule')
+      elif dtrue is not None and not (deep and pair in (('capsule', 'capsule'), ('capsule', 'box'))):
         err = abs(dmin - dtrue)
         if err <= tdist:
           calib['ccd' if is_ccd else 'prim'] = max(calib['ccd' if is_ccd else 'prim'],
@@ -321,7 +350,7 @@ def main(ck):
             if sat > tprim and not (-w > 0 and -w <= dmin + tprim):
               hard('box-box normal does not separate the boxes: gap along n %.17g, dist %.17g' % (-w, dmin),
                    'normal:box-box')
-      elif not deep and not is_ccd:
+      elif not deep and not is_ccd and not f5:
         err = abs(w + dmin)
         if not err <= tdist:
           hard('normal/dist certificate: overlap width along the reported normal %.17g but dist %.17g (tol %.3g)' % (
@@ -361,7 +390,7 @@ def main(ck):
         nk = np.array(ck_['frame'][:3])
         pk = np.array(ck_['pos'])
         dk = float(ck_['dist'])
-        if dk < -DEEP * smin or (touching and is_ccd):
+        if dk < -DEEP * smin or (touching and is_ccd) or (pair == ('box', 'box') and sat > 0):
           continue
         e1 = gr.sdf(S[int(ck_['geom'][0])], pk - nk * dk / 2)
         e2 = gr.sdf(S[int(ck_['geom'][1])], pk + nk * dk / 2)
@@ -390,7 +419,7 @@ def main(ck):
     d12 = lib.mj_geomDistance(m, d, 0, 1, distmax, f12)
     d21 = lib.mj_geomDistance(m, d, 1, 0, distmax, f21)
     gd_ccd = is_ccd or pair == ('box', 'box')       # mj_geomDistance sends box-box to GJK/EPA as well
-    tgd = tprim + (K_CCD * tol_ccd if gd_ccd else 0.0)
+    tgd = tprim + ((K_CCD * tol_ccd + K_CCDREL * sc) if gd_ccd else 0.0)
     deep_gd = d12 < -DEEP * smin
     band = [None]
 
@@ -413,7 +442,7 @@ def main(ck):
       return band[0]
 
     def gd_fail(msg, bucket):
-      if touching_band():
+      if touching_band() or par_caps:
         return
       (softfail if gd_ccd else hard)(msg, bucket)
     err = abs(d12 - d21)
@@ -468,7 +497,7 @@ def main(ck):
                         dclass=info['dclass'], okind=info['okind'], dkind=info['dkind'], sizes=[info['sa'], info['sb']]),
             labels=labels)
 
-  ck.run_hypothesis(test, scene_strategy(), ck.budget(350, 40000), name='contacts')
+  ck.run_hypothesis(test, scene_strategy(), ck.budget(350, 40000), name='contacts', shrink=False)
   ck.extra['tolerances'] = dict(K_FRAME=K_FRAME, K_PRIM=K_PRIM, K_CCD=K_CCD, BOXBOX_FUDGE=BOXBOX_FUDGE, DEEP=DEEP)
   ck.extra['worst_observed'] = {k: float(v) for k, v in calib.items()}
   ck.extra['boxbox'] = stats
